@@ -47,7 +47,8 @@ def check(ctx):
     ctx.guard("C17-C", rule_token_progress)
     ctx.rule("C17-F", "stylesheet text is consumed token by token: above the tokenizer (the functions parse_token reaches) no "
              "parser function skips text with a raw character scan (take_till / take_until / take_while / is_not / find / split / "
-             "a loop over chars), which would be blind to strings and comments; the tokenizer's own comment scan is the positive control")
+             "a loop over chars), which would be blind to strings and comments; inside the tokenizer the raw scans are the three "
+             "reviewed ones (comment body, string body, escape digits), which also serve as the positive control")
     ctx.guard("C17-F", rule_f)
 
 
@@ -55,6 +56,13 @@ RAW_SCANNERS = ("take_until", "take_until1", "take_till", "take_till1", "take_wh
                 "find", "rfind", "split", "splitn", "rsplit", "rsplitn", "split_once", "rsplit_once", "split_terminator", "split_inclusive",
                 "trim_start_matches", "trim_end_matches", "trim_matches", "strip_suffix", "lines", "anychar", "not_line_ending", "rest",
                 "position", "rposition", "memchr", "match_indices", "rmatch_indices", "matches", "contains")
+
+
+TOKENIZER_SCANS = {
+    ("css::parser::match_comment", "take_until"): "the body of a comment, up to the first `*/` (comments do not nest, nothing inside is a token)",
+    ("css::parser::ident_escape", "next"): "the hex digits of one escape sequence (at most six, then one optional white-space character)",
+    ("css::parser::parse_string_token", "next"): "the body of a string token, up to the matching unescaped quote or a newline",
+}
 
 
 def rule_f(ctx):
@@ -81,6 +89,14 @@ def rule_f(ctx):
                 continue
             if in_tok:
                 control += 1
+                why = TOKENIZER_SCANS.get((fn_key(b), nm))
+                if why:
+                    ctx.ok("C17-F", "tokenizer-scan@%s:%s" % (fn_key(b), nm), t["span"], b.id, why, how="table")
+                else:
+                    ctx.violation("C17-F", "tokenizer-scan@%s:%s" % (fn_key(b), nm), t["span"], b.id,
+                                  "a new raw character scan inside the tokenizer (%s): the reviewed ones are the comment body, the "
+                                  "string body and the escape sequence; any other must be shown not to run over quotes, "
+                                  "comments or brackets that belong to other tokens" % nm)
                 continue
             n += 1
             ctx.violation("C17-F", "raw-scan@%s:%s" % (fn_key(b), nm), t["span"], b.id,
